@@ -111,6 +111,12 @@ gen_suite(Rng &r, int kind)
         if (kind < 0) {
                 uint32_t x = r.below(100);
                 kind = x < 30 ? 0 : x < 55 ? 1 : x < 80 ? 2 : 3;
+                // the empty suite (NULL cipher, NULL hash) is a valid job that completes at once without touching anything
+                if (r.below(50) == 0) {
+                        s.dir = IMB_DIR_ENCRYPT;
+                        s.order = r.chance(0.5) ? IMB_ORDER_CIPHER_HASH : IMB_ORDER_HASH_CIPHER;
+                        return s;
+                }
         }
         s.dir = r.chance(0.5) ? IMB_DIR_ENCRYPT : IMB_DIR_DECRYPT;
         if (kind == 0 || kind == 2) {
